@@ -55,6 +55,9 @@ class Tracer:
         self.pre_meta = {}        # id(new node) -> metadata_props the replacement function gave it
         self.fn_tokens_done = set()
         self.tops = [0]           # the serialized graph objects: model graph and functions
+        self.const_copies = 0
+        self.used_sets = 0
+        self.sorts = []           # (token graph before Graph.sort, after it, registered-initializer tokens) per container
         self.namefix = []         # (label, token graph, final-name graph, (token, name) pairs, visible names) after NameFixPass
 
     # ---- tokens
@@ -279,6 +282,22 @@ class Tracer:
                     pair = (self.token(oi), self.token(fi))
                     if pair not in cmap:
                         cmap.append(pair)
+        # the tensor each Constant node holds is the const_value of the caller's value it stands for (hypothesis
+        # `consts_bound` of C07_as_function_with_constants_sound, observed)
+        import numpy as np
+        prod = {id(v): c for c in consts for v in c.outputs}
+        for fn_node, orig in zip(copies, ordered):
+            for fi, oi in zip(fn_node.inputs, orig.inputs):
+                if fi is not None and id(fi) in prod and oi is not None:
+                    try:
+                        a = prod[id(fi)].attributes["value"].value.numpy()
+                        b = oi.const_value.numpy() if oi.const_value is not None else None
+                        same = b is not None and a.dtype == b.dtype and a.shape == b.shape and a.tobytes() == b.tobytes()
+                    except Exception:
+                        same = False
+                    if not same:
+                        self.errors.append("as_function: a copied Constant node does not hold the const_value of the value it replaces")
+                    self.const_copies += 1
         cattrs = []
         for c in consts:
             cattrs.append(clist([f"({cstr(name)}, AStr {cstr(_digest_attr(c.attributes[name]))})" for name in sorted(c.attributes)]))
@@ -311,12 +330,16 @@ class Tracer:
                            g0=tracer.graph_lit(graph_or_function), apps=[], visits={}, unmodelled=[],
                            matched_sigs=[], new_nodes=0, count=None, gfinal=None, levels={}, ext=[],
                            top_obj=graph_or_function, model=model, known_functions=set(model.functions.keys()), events=[],
-                           s0=None, sfinal=None)
+                           s0=None, sfinal=None, mevents=[], multi=False)
                 tracer.gids.setdefault(id(model.graph), 0)
                 try:
                     rec["s0"] = tracer.state_lit(model, graph_or_function, rec["known_functions"])
                 except Exception as e:  # instrumentation must never change what the implementation does
                     rec["unmodelled"].append(f"tracer error in the state snapshot: {type(e).__name__}: {e}")
+                try:
+                    rec["frame0"] = tracer.frame_snapshot(graph_or_function)
+                except Exception as e:
+                    rec["unmodelled"].append(f"tracer error in the frame snapshot: {type(e).__name__}: {e}")
                 tracer.cur = rec
                 tracer.sweeps.append(rec)
             tracer.depth += 1
@@ -333,6 +356,11 @@ class Tracer:
                     rec["tops"] = list(tracer.tops)
                 except Exception as e:
                     rec["unmodelled"].append(f"tracer error in the state snapshot: {type(e).__name__}: {e}")
+                try:
+                    tracer.frame_compare(rec, graph_or_function)
+                except Exception as e:
+                    rec["unmodelled"].append(f"tracer error in the frame comparison: {type(e).__name__}: {e}")
+                rec["frame0"] = None
                 rec["top"] = None
                 rec["top_obj"] = None
                 rec["model"] = None
@@ -366,7 +394,9 @@ class Tracer:
                             if id(n) not in tracer.pre_meta:
                                 tracer.pre_meta[id(n)] = list(n.metadata_props.items())
                                 tracer.keep.append(n)
-                        rec["events"].append("(EVisit " + tracer.delta_lit(rec, graph_or_function, delta, self_) + ")")
+                        dl = tracer.delta_lit(rec, graph_or_function, delta, self_)
+                        rec["events"].append("(EVisit " + dl + ")")
+                        rec["mevents"].append("(MVisit " + dl + ")")
                     except Exception as e:
                         rec["unmodelled"].append(f"tracer error at a visit: {type(e).__name__}: {e}")
             return delta
@@ -399,6 +429,55 @@ class Tracer:
                 tracer.errors.append(f"tracer error after NameFixPass: {type(e).__name__}: {e}")
             return result
         namefix_cls.call = namefix_wrapper
+        import onnx_ir as ir_
+        graph_cls = ir_.Graph
+        orig_sort = graph_cls.sort
+        self._saved_sort = (graph_cls, orig_sort)
+
+        def sort_wrapper(self_):
+            # apply_to_model sorts every container after rules whose pattern has several output nodes
+            before = None
+            try:
+                if tracer.cur is None and tracer.depth == 0 and tracer.sweeps:
+                    before = tracer.graph_lit(self_)
+            except Exception as e:  # observation only
+                tracer.errors.append(f"tracer error before Graph.sort: {type(e).__name__}: {e}")
+            result = orig_sort(self_)
+            if before is not None:
+                try:
+                    ext = sorted({tracer.token(v) for g in tracer._graphs_of(self_) for v in g.initializers.values()
+                                  if id(v) in tracer.new_inits})
+                    tracer.sorts.append((before, tracer.graph_lit(self_), ext))
+                except Exception as e:
+                    tracer.errors.append(f"tracer error after Graph.sort: {type(e).__name__}: {e}")
+            return result
+        graph_cls.sort = sort_wrapper
+        # the set of names _name_new_values takes for "in use": must be every value name of the model, nested graphs included
+        orig_name_new = getattr(rr.RewriteRuleSet, "_name_new_values", None)
+        self._saved_name_new = orig_name_new
+        if orig_name_new is not None:
+            def name_new_wrapper(self_, model, nodes):
+                first = getattr(self_, "_used_value_names", None) is None
+                expected = unnamed = None
+                if first:
+                    try:
+                        expected = tracer.names_in_use(model)
+                        unnamed = [v for n in nodes for v in n.outputs if v.name is None]
+                    except Exception as e:
+                        tracer.errors.append(f"tracer error before _name_new_values: {type(e).__name__}: {e}")
+                result = orig_name_new(self_, model, nodes)
+                if expected is not None:
+                    try:
+                        got = set(self_._used_value_names) - {v.name for v in unnamed} - {None}
+                        tracer.used_sets += 1
+                        if got != expected:
+                            miss, extra = sorted(expected - got)[:4], sorted(got - expected)[:4]
+                            tracer.errors.append("the names _name_new_values takes for in use are not the value names of the model "
+                                                 f"(nested graphs included): missing {miss}, extra {extra}")
+                    except Exception as e:
+                        tracer.errors.append(f"tracer error after _name_new_values: {type(e).__name__}: {e}")
+                return result
+            rr.RewriteRuleSet._name_new_values = name_new_wrapper
         rr.RewriteRuleSet._apply_to_graph_or_function = apply_wrapper
         rr.RewriteRule.try_rewrite = try_wrapper
         rr.convenience.replace_nodes_and_values = replace_wrapper
@@ -410,6 +489,14 @@ class Tracer:
             rr.RewriteRule.try_rewrite = t
             rr.convenience.replace_nodes_and_values = r
             self._saved = None
+        if getattr(self, "_saved_name_new", None) is not None:
+            import onnxscript.rewriter._rewrite_rule as rr_
+            rr_.RewriteRuleSet._name_new_values = self._saved_name_new
+            self._saved_name_new = None
+        if getattr(self, "_saved_sort", None):
+            cls, orig = self._saved_sort
+            cls.sort = orig
+            self._saved_sort = None
         if getattr(self, "_saved_namefix", None):
             cls, orig = self._saved_namefix
             cls.call = orig
@@ -444,6 +531,64 @@ class Tracer:
             label = "main" if top is model.graph else f"fn:{top.name}:{top.overload}"
             self.namefix.append((label, gtok, gname, clist([f"({cstr(a)}, {cstr(b)})" for a, b in pairs]), clist(vis, cstr)))
 
+    def names_in_use(self, model):
+        """Every value name of the model: inputs, initializers and node outputs of the main graph, of every function and of
+        every graph nested in them (what a fresh name must differ from)."""
+        used = set()
+        for top in [model.graph] + list(model.functions.values()):
+            for g in self._graphs_of(top):
+                used.update(v.name for v in g.inputs)
+                used.update(g.initializers)
+                for n in g:
+                    used.update(v.name for v in n.outputs)
+        used.discard(None)
+        return used
+
+    # ---- frame: everything no splice matched keeps its name, doc_string and metadata_props (direct oracle)
+    def frame_snapshot(self, top):
+        nodes, values = {}, {}
+
+        def val(v):
+            if v is not None and id(v) not in values:
+                values[id(v)] = (v, v.name, v.doc_string, dict(v.metadata_props))
+        for g in self._graphs_of(top):
+            for v in list(g.inputs) + list(g.initializers.values()):
+                val(v)
+            for n in g:
+                nodes[id(n)] = (n, n.name, n.doc_string, dict(n.metadata_props), n.op_type, n.domain, n.overload,
+                                [id(v) for v in n.outputs])
+                for v in n.outputs:
+                    val(v)
+        return nodes, values
+
+    def frame_compare(self, rec, top):
+        nodes0, values0 = rec.get("frame0") or ({}, {})
+        touched_n, touched_v = rec.get("touched_nodes", set()), rec.get("touched_values", set())
+        bad = rec.setdefault("frame_bad", [])
+        rec["frame_checked"] = 0
+        live = set()
+        for g in self._graphs_of(top):
+            for n in g:
+                live.add(id(n))
+                old = nodes0.get(id(n))
+                if old is None or id(n) in touched_n:
+                    continue
+                rec["frame_checked"] += 1
+                now = (n.name, n.doc_string, dict(n.metadata_props), n.op_type, n.domain, n.overload, [id(v) for v in n.outputs])
+                if now != old[1:]:
+                    what = [k for k, a, b in zip(("name", "doc_string", "metadata_props", "op_type", "domain", "overload", "outputs"), old[1:], now) if a != b]
+                    bad.append(f"node {n.op_type} -> {[v.name for v in n.outputs]}: {what} changed although no rule matched it")
+                for v in n.outputs:
+                    o = values0.get(id(v))
+                    if o is None or id(v) in touched_v:
+                        continue
+                    if (v.name, v.doc_string, dict(v.metadata_props)) != o[1:]:
+                        bad.append(f"value {o[1]}: name/doc_string/metadata_props changed although no rule matched its producer")
+        # a node that left the container although no removing splice matched it
+        for k, old in nodes0.items():
+            if k not in live and k not in touched_n:
+                bad.append(f"node {old[4]} -> left the container although no rule matched it")
+
     def sig(self, n):
         return (n.domain if n.domain != "ai.onnx" else "", n.op_type, tuple(self.token(v) or "" for v in n.inputs),
                 tuple(self.token(v) for v in n.outputs))
@@ -461,16 +606,28 @@ class Tracer:
             why = "insertion point is not a node of the graph"
         elif len(midx) != len(matched):
             why = "a matched node is not a node of the graph being rewritten"
-        elif not midx or midx[-1] != root_idx:
-            why = "the root is not the last matched node (pattern with several output nodes)"
+        elif not midx or root_idx not in midx:
+            why = "the insertion point is not a matched node"
         elif remove and {id(n) for n in old_nodes} != {id(n) for n in matched}:
             why = "removed nodes differ from the matched nodes"
         elif any(id(v) in self.tok for v in new_values):
             why = "a replacement output is a pre-existing value"
-        elif any(ov.producer() is not root for ov in old_values):
-            why = "a pattern output is not produced by the root"
+        elif any(not any(ov.producer() is m for m in matched) for ov in old_values):
+            why = "a pattern output is not produced by a matched node"
         for n in matched:
             rec["matched_sigs"].append((self.sig(n), remove))
+            # overlapping matches: a node removed by an earlier splice of the sweep must not be matched again
+            if id(n) in rec.setdefault("removed_nodes", set()):
+                rec["unmodelled"].append("a matched node had been removed by an earlier splice of the sweep (stale node)")
+            rec.setdefault("touched_nodes", set()).add(id(n))
+            for v in n.outputs:
+                rec.setdefault("touched_values", set()).add(id(v))
+            if remove:
+                rec["removed_nodes"].add(id(n))
+        for v in list(old_values) + list(new_values):
+            rec.setdefault("touched_values", set()).add(id(v))
+        for n in new_nodes:
+            rec.setdefault("touched_nodes", set()).add(id(n))
         if why:
             rec["unmodelled"].append(why)
             info["skip"] = True
@@ -488,6 +645,8 @@ class Tracer:
         info["mkeys"] = [self.token(n.outputs[0]) for n in matched if n.outputs]
         info["mvals"] = [self.token(v) for n in ordered for v in n.outputs]
         info["delta"], info["rule"], info["fn"] = delta, rule, None
+        # pattern with several output nodes: matched nodes after the insertion point / outputs of other nodes than it
+        info["multi"] = midx[-1] != root_idx or any(ov.producer() is not root for ov in old_values)
         if rule is not None and rule.as_function and len(new_nodes) == 1:
             info["fn"] = self.fn_request(rec["model"], new_nodes[0], ordered, gof)
             if info["fn"] is None:
@@ -512,18 +671,25 @@ class Tracer:
         if info.get("skip"):
             return
         mask = ["true" if i in info["matched"] else "false" for i in range(info["root"] + 1)]
+        mmask = ["true" if i in info["matched"] else "false" for i in range(max(info["matched"]) + 1)]
         new = clist([self.node_lit(n) for n in new_nodes])
         dead = clist([f"({cstr(a)}, {cstr(b)})" for a, b in info["dead"]])
         app = f"(App {clist(mask)} {new} {'true' if info['remove'] else 'false'} {dead})"
+        mapp = f"(MApp {clist(mmask)} {info['root']}%nat {new} {'true' if info['remove'] else 'false'} {dead})"
         path = clist([f"({i}%nat, {cstr(k)})" for i, k in info["path"]])
+        if info.get("multi"):
+            rec["multi"] = True
         rec["apps"].append(f"({path}, {app}, {clist(info['pouts'], cstr)})")
+        rec.setdefault("mapps", []).append(f"({path}, {mapp})")
         if info.get("delta") is not None:
             fn = info.get("fn")
             d = self.delta_lit(rec, gof, info["delta"], info["rule"], info["mkeys"], info["mvals"], new_nodes, info["dead"],
                                fn=fn[0] if fn else None)
             rec["events"].append(f"(ESplice {path} {app} {d} {fn[1] if fn else '[]'} {fn[2] if fn else '[]'})")
+            rec["mevents"].append(f"(MSplice {path} {mapp} {d} {fn[1] if fn else '[]'} {fn[2] if fn else '[]'})")
         else:
             rec["unmodelled"].append("a splice without a recorded replacement")
         removed = len(info["matched"]) if info["remove"] else 0
+        removed_before = len([i for i in info["matched"] if i <= info["root"]]) if info["remove"] else 0
         rec["levels"].setdefault(info["gid"], []).append(
-            dict(root=info["root"], next=info["root"] + 1 - removed, n_after=info["n_before"] - removed + len(new_nodes)))
+            dict(root=info["root"], next=info["root"] + 1 - removed_before, n_after=info["n_before"] - removed + len(new_nodes)))
